@@ -83,13 +83,13 @@ def c07_file(draw):
         stmts.append({"k": "cdecay", "x": draw(lab)})
     for _ in range(draw(st.integers(0, 4))):
         with_width = draw(st.booleans())
-        if with_width:
+        cands = list(real) + [a for a in alias_names if final_alias.get(a) in real]
+        cands = [c for c in cands if final_alias.get(c, c) in real]
+        if with_width or not cands:
             n = draw(lab)
             stmts.append({"k": "particle", "n": n, "mass": draw(N.num_literal(nonneg=True)), "width": draw(N.num_literal(nonneg=True))})
         else:
             # the name must resolve (directly or through the *final* alias table) to a particle with a numeric width
-            cands = list(real) + [a for a in alias_names if final_alias.get(a) in real]
-            cands = [c for c in cands if final_alias.get(c, c) in real]
             n = draw(st.sampled_from(cands))
             stmts.append({"k": "particle", "n": n, "mass": draw(N.num_literal(nonneg=True)), "width": None})
     kinds = ("pythia", "jetset", "ls", "bw", "masslimit", "incfactor", "lspw", "photos")
